@@ -25,4 +25,39 @@ def init():
     return labrea
 
 
+def _line_coverage(path):
+    """Optional diagnostic (LVF_COVERAGE=<dir>): which lines of the library the workload reached, recorded with
+    sys.monitoring LINE events that disable themselves after the first hit (near-zero overhead).  Not used by any
+    verdict; tools/covreport.py merges the per-process files."""
+    import atexit
+    import json
+
+    mon = sys.monitoring
+    tool = mon.COVERAGE_ID
+    try:
+        mon.use_tool_id(tool, "lvf-coverage")
+    except ValueError:
+        return
+    prefix = os.path.realpath(os.path.join(REPO, "labrea")) + os.sep
+    seen = set()
+
+    def on_line(code, line):
+        f = code.co_filename
+        if f.startswith(prefix) or os.path.realpath(f).startswith(prefix):
+            seen.add((os.path.basename(f), line))
+        return mon.DISABLE
+
+    mon.register_callback(tool, mon.events.LINE, on_line)
+    mon.set_events(tool, mon.events.LINE)
+
+    def dump():
+        os.makedirs(path, exist_ok=True)
+        with open(os.path.join(path, f"cov-{os.getpid()}.json"), "w") as fh:
+            json.dump(sorted(seen), fh)
+
+    atexit.register(dump)
+
+
+if os.environ.get("LVF_COVERAGE") and hasattr(sys, "monitoring"):
+    _line_coverage(os.environ["LVF_COVERAGE"])
 init()
